@@ -7,11 +7,14 @@
    Gamma(k) as an integral, absent from the installed libraries - k = 1 is C03_nn_density_normalised
    through C03_poisson_k1_is_nn; (ii) "the starting point is the ridge-regression solution": the
    regression target is proved (C03_initial_value_target), the Ridge solver is a library contract
-   validated on every run ((L^T L + I) z = L^T target); (iii) nearest-neighbour distances are a
+   validated on every run ((L^T L + I) z = L^T target) - C03_ridge_unique_minimiser shows that this contract
+   determines the start value: the solution of the normal equations is the one and only minimiser of the ridge
+   objective (thm/RidgeThm.v, MathComp, any real closed field); (iii) nearest-neighbour distances are a
    KD/Ball-tree contract validated against brute force on every run. *)
 From Coq Require Import Reals List ZArith Lra Lia.
 From Coquelicot Require Import Coquelicot.
 From MellonV Require Import ALists AListsFacts AInference AInferenceThm ANormThm.
+From MellonV Require RidgeThm.
 Import ListNotations.
 Open Scope R_scope.
 
@@ -105,6 +108,13 @@ Print Assumptions C03_d_default.
 Theorem C03_initial_value_target : forall lgam r d mu, initial_value_target lgam r d mu = mle lgam r d - mu.
 Proof. exact initial_value_target_documented. Qed.
 Print Assumptions C03_initial_value_target.
+
+(* RidgeThm.ridge_unique_statement: for every real closed field F, L : n x p, y, lam > 0 and z,
+   J(zs) <= J(z), J(z) = J(zs) -> z = zs, and (L^T L + lam I) zs = L^T y, where J(z) = |L z - y|^2 + lam |z|^2
+   and zs = (L^T L + lam I)^-1 L^T y *)
+Theorem C03_ridge_unique_minimiser : RidgeThm.ridge_unique_statement.
+Proof. exact RidgeThm.ridge_unique. Qed.
+Print Assumptions C03_ridge_unique_minimiser.
 
 Example C03_nonvacuous :
   (forall v, In v [1 / 2; 3] -> 0 < v) /\ [1; 2] <> [] /\ (0 <= 1 / 100 <= 1) /\ (2 <= 2)%nat
